@@ -19,6 +19,31 @@ OBLIGATIONS = [
      "statement": "a well-formed ring holds at most `capacity` items and never indexes outside the buffer"},
     {"id": "C10_R1_npot", "theorem": "Iora.C10.R1_nextPowerOfTwo", "kind": "proved",
      "statement": "nextPowerOfTwo(v) is the least power of two >= v for every v <= 2^63"},
+    {"id": "C10_R2", "theorem": "Iora.C10.R2_spsc_fifo", "kind": "proved",
+     "statement": "SPSC, every interleaving with each atomic and each slot access one step, stale counter reads allowed: received ++ in-flight = accepted, in-flight <= C, results = ghost logs"},
+    {"id": "C10_R2_refusals", "theorem": "Iora.C10.R2_refusals_genuine", "kind": "proved",
+     "statement": "a full/empty answer decided on a fresh counter read is genuine (refusals are conservative; partial batches are not linearizable to an atomic min(count, room) - counterexample in the docstring)"},
+    {"id": "C10_orders", "theorem": "Iora.C10.C10_orders", "kind": "proved",
+     "statement": "OrdersOK Gen.Orders.ring: every cross-thread counter load is acquire, every counter store in a producer/consumer method is release, one writer per counter (decide over the extracted table)"},
+    {"id": "C10_R3", "theorem": "Iora.C10.R3_ring_drf", "kind": "proved",
+     "statement": "data-race freedom of both ring classes in the release/acquire view model with the extracted orders, every capacity, every pair of programs, every schedule"},
+    {"id": "C10_R3_generic", "theorem": "Iora.C10.R3_drf_of_orders", "kind": "proved",
+     "statement": "OrdersOK o -> DRF (cfgOf o C)"},
+    {"id": "C10_R3_tight", "theorem": "Iora.C10.R3_tight", "kind": "proved",
+     "statement": "each of the four orders is necessary: weakening any one admits a racy execution (first conjunct = F02, the ring as found)"},
+    {"id": "C10_Q1", "theorem": "Iora.C10.Q1_fifo_lossless", "kind": "proved",
+     "statement": "blocking queue, every schedule of every program set: puts = takes ++ queue (FIFO, each item at most once, nothing lost or invented)"},
+    {"id": "C10_Q2", "theorem": "Iora.C10.Q2_capacity", "kind": "proved", "statement": "|queue| <= maxSize in every reachable state"},
+    {"id": "C10_Q3a", "theorem": "Iora.C10.Q3_close_wakes_all", "kind": "proved",
+     "statement": "after close() returned nobody is asleep on either condition variable"},
+    {"id": "C10_Q3b", "theorem": "Iora.C10.Q3_closed_refuses", "kind": "proved", "statement": "once closed: closed for ever and no further push"},
+    {"id": "C10_Q3c", "theorem": "Iora.C10.Q3_retrievable", "kind": "proved",
+     "statement": "a take that gets the mutex on a non-empty queue takes the oldest item without waiting, closed or not"},
+    {"id": "C10_Q4", "theorem": "Iora.C10.Q4_no_lost_wakeup", "kind": "proved",
+     "statement": "if no thread can run, every sleeper's wait condition is false (no lost wake-up), for every schedule incl. time-outs and spurious wake-ups"},
+    {"id": "C10_Q4_repaired", "theorem": "Iora.C10.Q4_repaired", "kind": "proved", "statement": "no schedule of the repaired class ends in a lost wake-up"},
+    {"id": "C10_Q4_F01", "theorem": "Iora.C10.Q4_refuted_for_unrepaired_close", "kind": "proved", "finding": "F01",
+     "statement": "the class as found (close() flips _closed outside the mutex) has a 6-step schedule ending in a lost wake-up"},
     {"id": "C10_skel_conforms", "theorem": "Iora.C10.skeleton_conforms", "kind": "proved",
      "statement": "the lock/notify skeleton extracted from blocking_queue.hpp equals the one the monitor model mirrors (decide)"},
     {"id": "C10_skel_disciplined", "theorem": "Iora.C10.skeleton_disciplined", "kind": "proved",
@@ -492,7 +517,7 @@ def run(ctx: Ctx):
         ctx.cov["obligations"] = len(OBLIGATIONS)
     hb = ctx.build_harness(HARNESS, sanitize=True, flags=[DETSCHED])
     dist = collections.Counter()
-    if hb and os.path.exists(ctx.model_bin()):
+    if hb and ok_build:
         corpus = load_corpus()
         seq_cases = [c for c in corpus if c.get("cat") != "bq-sched"]
         r1 = rng.fork("ring")
@@ -507,6 +532,7 @@ def run(ctx: Ctx):
         for i in range(2000 * scale):
             sched_cases.append(gen_sched_case(r3, i))
         run_sched(ctx, hb, sched_cases, dist)
+    run_tsan(ctx, 150 if quick else 6000, dist)
     ctx.extra["input_distribution"] = dict(dist)
     ctx.extra["repo_tree_sha"] = ctx.repo_tree_sha(ANCHOR_FILES)
     ctx.extra["not_proved"] = NOT_PROVED
@@ -519,6 +545,50 @@ def run(ctx: Ctx):
     return ctx.finish(level="proof", rule="a case = one self-contained op list on a fresh ring / blocking queue, or one multi-threaded program run under one DetSched schedule "
                       "(replayed through the Lean monitor model); distinct = distinct op lists resp. distinct (program, schedule) pairs; non-trivial = at least one "
                       "successful put and one take (sequential), resp. at least one context switch between two threads inside a call (schedules)")
+
+
+def run_tsan(ctx, ms, dist):
+    """Search for a real racing execution: SPSC soak of both ring classes built with ThreadSanitizer (no DetSched)."""
+    tb = ctx.build_harness("harness/c10_ring_tsan.cpp", name="c10_ring_tsan", sanitize=False, flags=["-fsanitize=thread"])
+    if not tb:
+        return
+    seed = ctx.rng.fork("tsan").next() % 10 ** 6
+    rc, out = 0, ""
+    try:
+        import subprocess
+        e = dict(os.environ)
+        e["TSAN_OPTIONS"] = "exitcode=66 halt_on_error=0 report_signal_unsafe=0"
+        p = subprocess.run([tb, str(ms), str(seed)], stdout=subprocess.PIPE, stderr=subprocess.PIPE, timeout=600 + ms // 100, env=e)
+        rc, out, err = p.returncode, p.stdout.decode("utf-8", "replace"), p.stderr.decode("utf-8", "replace")
+    except Exception as ex:
+        raise RuntimeError("tsan soak could not run: %s" % ex)
+    items = 0
+    cmd = "g++ -std=c++17 -O1 -g -fsanitize=thread -I$VERIF_REPO/include harness/c10_ring_tsan.cpp -o t -lpthread && TSAN_OPTIONS=exitcode=66 ./t %d %d" % (ms, seed)
+    for l in out.splitlines():
+        m = re.match(r"(\S+) items=(\d+) fifo=(.*) maxsize=(\d+) cap=(\d+)$", l)
+        if not m:
+            continue
+        dist["tsan:" + m.group(1)] += 1
+        items += int(m.group(2))
+        ctx.count_case("tsan:%s:%d:%d" % (m.group(1), seed, ms), nontrivial=int(m.group(2)) > 0)
+        if m.group(3) != "ok":
+            ctx.violation("property", "R2: SPSC run of the real ring is not FIFO/lossless: %s" % l, {"ops": [cmd], "observed": out.splitlines()}, found_input=True)
+        if int(m.group(4)) > int(m.group(5)):
+            ctx.violation("property", "R2: size() sampled above capacity in an SPSC run: %s" % l, {"ops": [cmd], "observed": out.splitlines()}, found_input=True)
+    ctx.extra["tsan_items_transferred"] = items
+    ctx.extra["tsan_ms_per_configuration"] = ms
+    n = err.count("WARNING: ThreadSanitizer")
+    ctx.extra["tsan_reports"] = n
+    if n:
+        first = err[err.find("WARNING: ThreadSanitizer"):][:2500]
+        where = re.findall(r"#0 (iora::core::\S+?)\(.*?ring_buffer\.hpp:(\d+)", first)
+        ctx.violation("property", "R3: ThreadSanitizer reports a data race inside the SPSC contract of the real ring (%s)"
+                      % "; ".join("%s l.%s" % w for w in where[:2]),
+                      {"ops": [cmd], "tsan_report": first, "reports": n, "observed": out.splitlines()}, found_input=True)
+    elif rc not in (0,):
+        ctx.violation("property", "R2: the SPSC soak of the real ring crashed rc=%d: %s" % (rc, err[-300:]), {"ops": [cmd]}, found_input=True)
+    if not out.strip():
+        raise RuntimeError("tsan soak produced no output rc=%s %s" % (rc, err[-300:]))
 
 
 def run_sequential(ctx, hb, cases, dist):
@@ -599,7 +669,7 @@ def run_sched(ctx, hb, cases, dist):
         else:
             sch = model_schedule(res["events"])
             replay_lines.append("bq replay %d %s %s" % (c["cap"], "/".join(["-"] + [",".join(p) if p else "-" for p in c["progs"]]), ",".join(sch) if sch else "-"))
-    mout, mrc, merr = ctx.run_lines([ctx.model_bin(), "queues"], replay_lines, timeout=1200)
+    mout, mrc, merr = ctx.run_lines(ctx.model_argv("queues"), replay_lines, timeout=1200)
     if mrc != 0 or len(mout) != len(replay_lines):
         raise RuntimeError("model driver failed on schedule replay rc=%s lines=%d/%d %s" % (mrc, len(mout), len(replay_lines), merr[-300:]))
     n_mismatch = 0
